@@ -15,6 +15,9 @@ CaseJson == [pattern |-> script, T |-> thr0, end |-> endMode,
 \* used as an invariant: evaluated once per distinct state, TRUE always
 Export == IF Terminal THEN PrintT(ToJson(CaseJson)) ELSE TRUE
 
+\* thresholds of the thorough configuration (the cfg syntax has no negative literals)
+ThoroughThresholds == {-1, 0, 1, 2, 3, 4}
+
 \* reachability witnesses (each must be VIOLATED, otherwise the model is vacuous)
 NeverClosed == closedAt < 0
 NeverStopped == pc # "stopped"
